@@ -10,23 +10,30 @@ From Boltons Require Import Lib.Prelude Lib.C08_Py Spec.C08_Spec Model.C08_Model
    same order as the recursive function [srb], in which an object reached again
    while it is being rebuilt appears as the implementation's blank
    ([impl_blank]: the object itself for list/dict/set, an empty () for tuples). *)
-Theorem C08_machine_is_recursion : forall visit defs root,
-  remap visit defs root = srb_root impl_blank visit defs root.
+Theorem C08_machine_is_recursion : forall visit reraise defs root,
+  remap (lift visit) reraise defs root = srb_root impl_blank visit defs root.
 Proof. exact machine_is_recursion. Qed.
 Print Assumptions C08_machine_is_recursion.
 
+(* [lift visit]: a callback that answers (does not raise).  With
+   reraise_visit=False a raising callback is one that answers True: *)
+Theorem C08_no_reraise : forall mv reraise defs root,
+  remap mv false defs root = remap (lift (total mv)) reraise defs root.
+Proof. exact remap_no_reraise. Qed.
+Print Assumptions C08_no_reraise.
+
 (* self-referential structures terminate: 2*size+1 loop iterations suffice *)
-Theorem C08_terminates : forall visit defs root, remap visit defs root <> OutOfFuel.
+Theorem C08_terminates : forall visit reraise defs root, remap (lift visit) reraise defs root <> OutOfFuel.
 Proof. exact remap_terminates. Qed.
 Print Assumptions C08_terminates.
 
 (* unshared trees: remap = the straightforward recursive rebuild (same kinds, keys,
    order), and visit is called once per item, post-order, with the right path *)
-Theorem C08_tree : forall (visit : option visit_fn) defs id k items,
+Theorem C08_tree : forall (visit : option visit_fn) reraise defs id k items,
   let root := ONode id k items in
   is_tree root = true -> NoDup (ids root) ->
   exists v m lg,
-    remap visit defs root = Done v m lg
+    remap (lift visit) reraise defs root = Done v m lg
     /\ erase v = rebuild (vfun visit) [] (erase root)
     /\ evisits lg = calls_opt visit [] (erase root).
 Proof. exact machine_tree. Qed.
@@ -34,10 +41,10 @@ Print Assumptions C08_tree.
 
 (* the same without hypotheses: every pure nested value [t], taken as a graph of
    distinct objects; [erase] forgets the identities of the result *)
-Theorem C08_tree_val : forall (visit : option visit_fn) defs k items,
+Theorem C08_tree_val : forall (visit : option visit_fn) reraise defs k items,
   let t := VNode k items in
   exists v m lg,
-    remap visit defs (inject t) = Done v m lg
+    remap (lift visit) reraise defs (inject t) = Done v m lg
     /\ erase v = rebuild (vfun visit) [] t
     /\ evisits lg = calls_opt visit [] t.
 Proof. exact machine_tree_val. Qed.
@@ -54,9 +61,9 @@ Proof. exact ex_tree_ok. Qed.
    checker's `known` bit uses for finding C08-tuple-cycle; [ok_rebuild] in
    Check/C08_Check.v evaluates exactly [spec_remap] on the implementation's
    observation.  Mutable cycles (lists, dicts, sets) are inside the theorem. *)
-Theorem C08_machine_refines_spec_partial : forall visit root,
+Theorem C08_machine_refines_spec_partial : forall visit reraise root,
   imm_backref [] root = false ->
-  remap visit (collect_defs root) root = spec_remap visit root.
+  remap (lift visit) reraise (collect_defs root) root = spec_remap visit root.
 Proof. exact machine_refines_spec. Qed.
 Print Assumptions C08_machine_refines_spec_partial.
 
@@ -69,8 +76,8 @@ Proof. exact ex_cyclic_ok. Qed.
    i.e. also a cycle entered through a tuple is preserved.  The faithful model
    violates it: l=[]; t=(l,); l.append(t); remap(t) = ([()],). *)
 Theorem C08_cycle_tuple_refuted :
-  exists root, remap None (collect_defs root) root <> spec_remap None root
-               /\ exists m lg, remap None (collect_defs root) root
+  exists root, remap None true (collect_defs root) root <> spec_remap None root
+               /\ exists m lg, remap None true (collect_defs root) root
                     = Done (ONode 0 KTuple [(KI 0, ONode 1 KList [(KI 0, OBlank KTuple)])]) m lg.
 Proof. exact tuple_cycle_witness. Qed.
 Print Assumptions C08_cycle_tuple_refuted.
@@ -85,11 +92,11 @@ Print Assumptions C08_cycle_tuple_refuted.
    _partial: stated for graphs without set/frozenset nodes - a rebuilt set holds
    its members in canonical order, so for sets the item-by-item statement holds
    up to the order of members only (checked on the code by `holds`, not proved). *)
-Theorem C08_default_copy_partial : forall id k items,
+Theorem C08_default_copy_partial : forall reraise id k items,
   let root := ONode id k items in
   NoDup (ids root) -> wf_keys root -> no_sets root -> imm_backref [] root = false ->
   exists v m lg,
-    remap None (collect_defs root) root = Done v m lg
+    remap None reraise (collect_defs root) root = Done v m lg
     /\ oref_of v = RObj id /\ t_get m id = Some v
     /\ forall j kj itemsj, In (j, ONode j kj itemsj) (collect_defs root) ->
          exists items', t_get m j = Some (ONode j kj items') /\ shal items' = shal itemsj.
